@@ -39,7 +39,9 @@ Record case := MkCase {
   (* observed *)
   c_final : ktab;
   c_calls_a : list call; c_calls_b : list call;
-  c_ok_a : bool; c_ok_b : bool }.
+  c_ok_a : bool; c_ok_b : bool;
+  c_rest : ktab }.                      (* what is still mounted below the base path after ONE later,
+                                           undisturbed `umount -all` by a fresh invocation *)
 
 Record outcome := MkOut { o_final : ktab; o_calls_a : list call; o_calls_b : list call; o_ok_a : bool; o_ok_b : bool;
                           o_trace : trace }.
@@ -63,6 +65,11 @@ Definition spec (c : case) (final : ktab) : bool :=
   let cb := code_of (c_cfg c) (c_fs c) (c_cmd_b c) in
   ktab_eq final (serial_ab (c_k0 c) ca cb) || ktab_eq final (serial_ab (c_k0 c) cb ca).
 
+(* "... so one later umount fully unmounts the layer": unless a mountpoint carries two mounts,
+   the later umount leaves nothing behind *)
+Definition later_ok (final rest : ktab) : bool :=
+  has_dup final || match rest with [] => true | _ => false end.
+
 Fixpoint nodup_b (l : list bytes) : bool := match l with [] => true | x :: r => negb (mem_path x r) && nodup_b r end.
 Definition mount_targets_of (code : list instr) : list bytes :=
   flat_map (fun i => match i with IMountIf t _ => [t] | _ => [] end) code.
@@ -83,5 +90,6 @@ Definition kf (c : case) : N :=
   else if (is_umount (c_cmd_a c) || is_umount (c_cmd_b c)) && negb (serial_picks (tr_picks (o_trace m))) then 2
   else 0.
 
-Definition verdict (c : case) : N := mkverdict (wf c) (corr c) (spec c (c_final c)) (kf c).
+Definition verdict (c : case) : N :=
+  mkverdict (wf c) (corr c) (spec c (c_final c) && later_ok (c_final c) (c_rest c)) (kf c).
 End C20.
